@@ -1,7 +1,8 @@
 import JadeModel.Proofs.SystemUniqueRows
-import JadeModel.Proofs.SystemUniqueADefs
+import JadeModel.Proofs.SystemUniqueDefs
 import JadeModel.Proofs.SystemUniqueAStepA
 import JadeModel.Proofs.SystemUniqueAStepB
+import JadeModel.Proofs.SystemUniqueAStepC
 
 set_option linter.unusedSimpArgs false
 
@@ -12,8 +13,9 @@ namespace Jade.Sys
 
 theorem plainA_step {s s' : Sys} {op : Op} (hb : BatchInv s) (hi : PlainA s) (h : step s op = some s')
     (hf : op.risky = false) : PlainA s' := by
-  obtain ⟨c_noFail, c_pendMarked, c_quiet⟩ := plainA_step_a hb hi h hf
-  obtain ⟨c_quietNewly, c_batchJobs⟩ := plainA_step_b hb hi h hf
+  obtain ⟨c_noFail, c_pendMarked⟩ := plainA_step_a hb hi h hf
+  obtain ⟨c_quiet, c_quietNewly⟩ := plainA_step_b hb hi h hf
+  have c_batchJobs := plainA_step_c hb hi h hf
   exact ⟨c_noFail, c_pendMarked, c_quiet, c_quietNewly, c_batchJobs⟩
 
 end Jade.Sys
